@@ -381,7 +381,10 @@ pub fn flex_layout(
             let mut child_layout = child_layout_opt.expect("not all flex children are allocated");
             if let Some(flex) = child.flex {
                 // compute available flex
-                let child_major_max = ((major_remain as f64) * flex / flex_total).round() as usize;
+                // `flex_total` accumulates rounding errors and can reach zero (or less)
+                // before the last child, the share can never exceed what remains
+                let child_major_max =
+                    (((major_remain as f64) * flex / flex_total).round() as usize).min(major_remain);
                 flex_total -= flex;
                 if child_major_max != 0 {
                     // layout child
